@@ -78,15 +78,22 @@ class GraphQLSyntaxError(GraphQLResponseError):
         if self._highlighted is not None:
             return self._highlighted
 
-        highlight = highlight_location(self.source, self.position)
+        highlight = highlight_location(self.source, self._clamped_position)
         self._highlighted = "%s %s" % (self.message, highlight)
         return self._highlighted
+
+    @property
+    def _clamped_position(self) -> int:
+        # The lexer reports some errors at end of input (e.g. an escape
+        # sequence cut short) one past the end of the source; rendering such
+        # a position must not fail.
+        return max(0, min(self.position, len(self.source)))
 
     def __str__(self) -> str:
         return self.highlighted
 
     def to_dict(self) -> Dict[str, Any]:
-        line, col = index_to_loc(self.source, self.position)
+        line, col = index_to_loc(self.source, self._clamped_position)
         return {
             "message": str(self),
             "locations": [{"line": line, "columne": col}],
